@@ -111,8 +111,15 @@ fn private_is_dirty(
     }
     match f.stamp.as_ref() {
         None => {
+            // Never built completely, or being (re)built right now, or its
+            // build was interrupted.  For a checksummed target that only
+            // means "find out by building it", as for a changed stamp.
             log_debug!("{}-- DIRTY (no stamp)\n", depth);
-            return Ok(Dirtiness::Dirty);
+            return Ok(if !f.checksum().is_empty() {
+                Dirtiness::NeedTargets(vec![f.into_owned()])
+            } else {
+                Dirtiness::Dirty
+            });
         }
         Some(oldstamp) => {
             let newstamp = f.read_stamp(ptx.state().env())?;
